@@ -56,6 +56,7 @@ type Script struct {
 	Concurrent   bool   `json:"concurrent"` // h2: all requests in flight at once
 	Cases        []Case `json:"cases"`
 	Volume       bool   `json:"volume,omitempty"` // many sequential uploads on the one connection
+	NeverIndex   bool   `json:"never_index,omitempty"` // h2raw: credentials-like request fields go as HPACK never-indexed literals
 }
 
 var col = vstat.New("C08", "c08.passthrough")
@@ -235,6 +236,7 @@ func gen(t *rapid.T) Script {
 			last.AbortAfter = rapid.IntRange(1, 12).Draw(t, "abortAfter")
 		}
 	}
+	s.NeverIndex = s.Proto == "h2raw" && rapid.Bool().Draw(t, "neverIndex")
 	s.Concurrent = s.Proto == "h2" && n > 1 && rapid.Bool().Draw(t, "conc")
 	return s
 }
@@ -396,6 +398,9 @@ func exec(t *testing.T, s Script) *vstat.Violation {
 			cc.Close()
 		} else if s.Proto == "h2raw" {
 			peer := rig.NewH2Peer(c.Conn)
+			if s.NeverIndex {
+				peer.NeverIndex = map[string]bool{"authorization": true, "cookie": true, "x-request-id": true, "user-agent": true, "x-custom-header": true}
+			}
 			peer.Start()
 			peer.Fr.WriteSettings(xhttp2.Setting{ID: xhttp2.SettingInitialWindowSize, Val: 1 << 30})
 			peer.Fr.WriteWindowUpdate(0, 1<<30-65535)
